@@ -517,6 +517,29 @@ func cmpRel(a Atom, isL, isR func(ast.Expr) bool) (rel int, ok bool) {
 	if !a.Val {
 		set = relAny &^ set
 	}
+	// domain knowledge: len(x) / cap(x) is never negative, so against the literal 0 the relation
+	// "less than" is impossible (`len(p) > 0` false means len(p) == 0, as `len(p) != 0` false does)
+	lx, rx := be.X, be.Y
+	if !(isL(be.X) && isR(be.Y)) {
+		lx, rx = be.Y, be.X
+	}
+	nonNeg := func(e ast.Expr) bool {
+		c, ok := ast.Unparen(e).(*ast.CallExpr)
+		if !ok || len(c.Args) != 1 {
+			return false
+		}
+		id, ok := ast.Unparen(c.Fun).(*ast.Ident)
+		return ok && (id.Name == "len" || id.Name == "cap")
+	}
+	zero := func(e ast.Expr) bool {
+		l, ok := ast.Unparen(e).(*ast.BasicLit)
+		return ok && l.Kind == token.INT && l.Value == "0"
+	}
+	if nonNeg(lx) && zero(rx) {
+		set &^= relLT
+	} else if zero(lx) && nonNeg(rx) {
+		set &^= relGT
+	}
 	return set, true
 }
 
